@@ -929,6 +929,10 @@ def check(program, rep):
     rep.guard("C20-R3", r3_returned_structs, program, rep)
     rep.guard("C20-R3", r3_callers_files, program, rep)
     rep.guard("C20-R4", r4_packet, program, folder, rep)
+    # the packed configuration is only as good as the table that maps the
+    # struct file's field codes to struct-module codes (C14-R6)
+    from . import C14
+    rep.guard("C14-R6", C14.r6_pack_table, program, folder, rep)
     # arguments handed to package functions under the wrong name / same-
     # named optional parameters not passed on (NAMELINK, DESIGN.md 9.13)
     from .. import namelink as _nl
